@@ -208,6 +208,16 @@ def rule_F3(ctx):
     return r
 
 
+def _single_defs(f):
+    """Locals of f assigned exactly once (name -> value node)."""
+    cnt, rhs = {}, {}
+    for x in own_walk(f.node):
+        if isinstance(x, ast.Assign) and len(x.targets) == 1 and isinstance(x.targets[0], ast.Name):
+            cnt[x.targets[0].id] = cnt.get(x.targets[0].id, 0) + 1
+            rhs[x.targets[0].id] = x.value
+    return {k: v for k, v in rhs.items() if cnt[k] == 1 and k not in f.params()}
+
+
 def rule_G1(ctx):
     """The two mode tables assign the same slots; variants exist, differ and agree on parameters; nothing else rebinds."""
     m = ctx.m
@@ -251,7 +261,25 @@ def rule_G1(ctx):
     ln, mn = m.switch_names['lsb0'], m.switch_names['msb0']
     from . import guards as G
     sel = [n for n in own_walk(f.node) if isinstance(n, ast.IfExp) and {ast.unparse(n.body), ast.unparse(n.orelse)} == {ln, mn}]
-    if len(sel) == 1:
+    if getattr(m, 'switch_pair_index', None) is not None:
+        # one table of pairs: what is installed is <pair>[index]; the index must be the lsb0 position exactly when the option is true
+        sets0 = [n for n in own_walk(f.node) if isinstance(n, ast.Call) and isinstance(n.func, ast.Name) and n.func.id == 'setattr' and len(n.args) == 3]
+        if len(sets0) != 1 or not isinstance(sets0[0].args[2], ast.Subscript):
+            raise AnalysisError('Options.set_lsb0: installation of the chosen half of the pairs not recognised (needs a human)')
+        idx = G.expand(f, sets0[0].args[2].slice, {k: v for k, v in _single_defs(f).items()})
+        want_true, want_false = m.switch_pair_index['lsb0'], m.switch_pair_index['msb0']
+        got = None
+        if isinstance(idx, ast.IfExp):
+            pt, a, b = G.pos_if(idx)
+            if '_lsb0' in ast.unparse(pt) and 'not ' not in ast.unparse(pt) and isinstance(a, ast.Constant) and isinstance(b, ast.Constant):
+                got = (a.value, b.value)
+        elif ast.unparse(idx) in ('self._lsb0', 'int(self._lsb0)', 'bool(self._lsb0)'):
+            got = (1, 0)
+        if got is None:
+            raise AnalysisError('Options.set_lsb0: pair index expression not recognised (needs a human)')
+        selnode, test, when_true = sets0[0], ast.parse('self._lsb0', mode='eval').body, (ln if got == (want_true, want_false) else '?')
+        sel = []
+    elif len(sel) == 1:
         test, a, b = G.pos_if(sel[0])
         when_true = ast.unparse(a)
         selnode = sel[0]
